@@ -211,6 +211,7 @@ class Simulation(object):
         # Check that all Input have a corresponding provided_input
         input_set = self.block.wirevector_subset(Input)
         supplied_inputs = set()
+        new_values = {}
         for i in provided_inputs:
             if isinstance(i, WireVector):
                 name = i.name
@@ -232,13 +233,16 @@ class Simulation(object):
                     % (name, sim_wire.bitwidth,
                        provided_inputs[i], len(bin(provided_inputs[i])) - 2))
 
-            self.value[sim_wire] = provided_inputs[i]
+            new_values[sim_wire] = provided_inputs[i]
             supplied_inputs.add(sim_wire)
 
         # Check that only inputs are specified, and set the values
         if input_set != supplied_inputs:
             for i in input_set.difference(supplied_inputs):
                 raise PyrtlError('Input "%s" has no input value specified' % i.name)
+
+        # every input was accepted: only now does the step start to change the simulation state
+        self.value.update(new_values)
 
         self.value.update(self.regvalue)  # apply register updates from previous step
 
